@@ -239,9 +239,9 @@ theorem addKeys_shape' (s : Fetcher.State) (h : Nat) (incoming locals : List (Na
   | nil => exact ⟨choice, rfl, rfl, id⟩
   | cons f fs =>
     cases choice with
-    | nil => exact ⟨[], rfl, rfl, fun h => by simp at h⟩
+    | nil => exact ⟨[], rfl, rfl, fun h => by simp [addKeysFrom] at h⟩
     | cons c rest =>
-      simp only []
+      simp only [addKeysFrom]
       split
       · exact ⟨rest, rfl, rfl, id⟩
       · exact ⟨[], rfl, rfl, fun h => by simp at h⟩
@@ -504,8 +504,9 @@ theorem nodeRsp_store (w : World) (i : Nat) (nd : NodeSt) (key : Nat) (c : Conte
       match replWrites nd.store key c with
       | [] => nd.store
       | (k', c') :: _ => nd.store.put k' c' := by
-  unfold nodeRsp
-  split <;> simp_all [putLocal]
+  unfold nodeRsp nodeRspWith
+  simp only []
+  split <;> split <;> simp_all [putLocal]
 
 /-- a reply about `key` never touches another key -/
 theorem nodeRsp_other (w : World) (i : Nat) (nd : NodeSt) (key : Nat) (c : Content) (ch : List Entry) (k : Nat)
@@ -972,29 +973,58 @@ set_option linter.unusedSimpArgs false
 def FetcherShape (n0 : Nat) (Q : Entry → Prop) (f : Fetcher.State) : Prop :=
   f.tbf = [] ∧ f.farthest = none ∧ f.now = n0 ∧ ∀ e ∈ f.ogf, Q e
 
+theorem earlyDone_shape (dist : Nat → Nat) (f : Fetcher.State) (k t : Nat) (ch : List Entry) (n0 : Nat)
+    (Q : Entry → Prop) (h : FetcherShape n0 Q f) : FetcherShape n0 Q (Fetcher.earlyDone dist f k t ch).1 := by
+  obtain ⟨ht, hf, hn, hq⟩ := h
+  let s0 : Fetcher.State := { f with tbf := f.tbf.filter (fun e => !Fetcher.sameKT k t e),
+                                     ogf := f.ogf.filter (fun e => !Fetcher.sameKT k t e) }
+  have ht0 : s0.tbf = [] := by simp [s0, ht]
+  obtain ⟨_, g2, g3⟩ := nextKeys_tbf_nil dist s0 ch ht0
+  have gf := SafeNet.Fetcher.nextKeys_fields dist s0 ch
+  have hnp : Fetcher.earlyDone dist f k t ch = Fetcher.nextKeys dist s0 ch := rfl
+  rw [hnp]
+  refine ⟨g2, by rw [gf.2.1]; exact hf, by rw [gf.2.2.1]; exact hn, ?_⟩
+  intro e he
+  rw [g3] at he
+  have := (SafeNet.Fetcher.pOgf_sub s0).subset he
+  exact hq e (List.mem_filter.1 this).1
+
+theorem newPut_shape (dist : Nat → Nat) (f : Fetcher.State) (k t : Nat) (ch : List Entry) (n0 : Nat)
+    (Q : Entry → Prop) (h : FetcherShape n0 Q f) : FetcherShape n0 Q (Fetcher.newPut dist f k t ch).1 := by
+  obtain ⟨ht, hf, hn, hq⟩ := h
+  let s0 : Fetcher.State := { f with tbf := f.tbf.filter (fun e => !Fetcher.sameKT k t e),
+                                     ogf := f.ogf.filter (fun e => !(e.key == k)) }
+  have ht0 : s0.tbf = [] := by simp [s0, ht]
+  obtain ⟨_, g2, g3⟩ := nextKeys_tbf_nil dist s0 ch ht0
+  have gf := SafeNet.Fetcher.nextKeys_fields dist s0 ch
+  have hnp : Fetcher.newPut dist f k t ch = Fetcher.nextKeys dist s0 ch := rfl
+  rw [hnp]
+  refine ⟨g2, by rw [gf.2.1]; exact hf, by rw [gf.2.2.1]; exact hn, ?_⟩
+  intro e he
+  rw [g3] at he
+  have := (SafeNet.Fetcher.pOgf_sub s0).subset he
+  exact hq e (List.mem_filter.1 this).1
+
+theorem putLocal_shape (w : World) (i : Nat) (nd : NodeSt) (k : Nat) (c : Content) (ch : List Entry) (n0 : Nat)
+    (Q : Entry → Prop) (h : FetcherShape n0 Q nd.fetcher) : FetcherShape n0 Q (putLocal w i nd k c ch).1.fetcher := by
+  have := newPut_shape (w.kdist i) nd.fetcher k (tyOf c) ch n0 Q h
+  simp only [putLocal]
+  cases nd.range <;> exact this
+
 theorem nodeRsp_shape (w : World) (i : Nat) (nd : NodeSt) (key : Nat) (c : Content) (ch : List Entry) (n0 : Nat)
     (Q : Entry → Prop) (h : FetcherShape n0 Q nd.fetcher) : FetcherShape n0 Q (nodeRsp w i nd key c ch).1.fetcher := by
-  unfold nodeRsp
+  unfold nodeRsp nodeRspWith
+  simp only []
   split
-  · exact h
-  · rename_i k' c' _ _
-    obtain ⟨ht, hf, hn, hq⟩ := h
-    let s0 : Fetcher.State := { nd.fetcher with tbf := nd.fetcher.tbf.filter (fun e => !Fetcher.sameKT k' (tyOf c') e),
-                                                 ogf := nd.fetcher.ogf.filter (fun e => !(e.key == k')) }
-    have ht0 : s0.tbf = [] := by simp [s0, ht]
-    obtain ⟨_, g2, g3⟩ := nextKeys_tbf_nil (w.kdist i) s0 ch ht0
-    have gf := SafeNet.Fetcher.nextKeys_fields (w.kdist i) s0 ch
-    have hnp : Fetcher.newPut (w.kdist i) nd.fetcher k' (tyOf c') ch = Fetcher.nextKeys (w.kdist i) s0 ch := rfl
-    have hshape : FetcherShape n0 Q (Fetcher.newPut (w.kdist i) nd.fetcher k' (tyOf c') ch).1 := by
-      rw [hnp]
-      refine ⟨g2, by rw [gf.2.1]; exact hf, by rw [gf.2.2.1]; exact hn, ?_⟩
-      intro e he
-      have he' : e ∈ (Fetcher.nextKeys (w.kdist i) s0 ch).1.ogf := he
-      rw [g3] at he'
-      have := (SafeNet.Fetcher.pOgf_sub s0).subset he'
-      exact hq e (List.mem_filter.1 this).1
-    simp only [putLocal]
-    cases nd.range <;> exact hshape
+  · split
+    · exact earlyDone_shape _ _ _ _ _ _ _ h
+    · exact h
+  · split
+    · rename_i k' c' _ _ _
+      have := earlyDone_shape (w.kdist i) _ key (tyOf c) (choiceDone ch) n0 Q
+        (newPut_shape (w.kdist i) nd.fetcher k' (tyOf c') (choicePut ch) n0 Q h)
+      cases nd.range <;> exact this
+    · exact putLocal_shape w i nd _ _ _ n0 Q h
 
 theorem fetchAll_shape (w : World) (dst : Nat) (ns : NodeSt) (n0 : Nat) (Q : Entry → Prop) :
     ∀ (es : List Entry) (nd : NodeSt) (cs : List (List Entry)), FetcherShape n0 Q nd.fetcher →
